@@ -9,5 +9,19 @@ cd "$HERE/engine"
 [ -f "$WORK/h.mod" ] || { sed "s#=> /repo#=> $REPO#" go.mod > "$WORK/h.mod"; : > "$WORK/h.sum"; }
 mkdir -p "$WORK/ov"
 go run -modfile="$WORK/h.mod" ./rewrite "$REPO" "$WORK/ov" "$HERE/engine/vsync/vsync.go" > "$WORK/rewrite.log"
-go build -modfile="$WORK/h.mod" -overlay "$WORK/ov/overlay.json" -tags verif -o "$WORK/c15" ./c15
+rm -f "$WORK/noexplore"
+if ! go build -modfile="$WORK/h.mod" -overlay "$WORK/ov/overlay.json" -tags verif -o "$WORK/c15" ./c15 2>"$WORK/build.err"; then
+  # The instrumented library does not compile (it uses a synchronisation construct the rewriter cannot
+  # lower). That is a limit of the explorer, not a defect of the tree under test: build the orchestrator
+  # against the UNinstrumented library (overlay = scheduler package only) and let it run the free-running
+  # pass alone; the evidence says that no schedule was explored.
+  cat "$WORK/build.err" >&2
+  { echo "instrumented build failed:"; head -5 "$WORK/build.err"; } > "$WORK/noexplore"
+  python3 - "$WORK/ov/overlay.json" "$REPO" > "$WORK/ov/overlay-min.json" <<'PY'
+import json,sys
+o=json.load(open(sys.argv[1]))
+print(json.dumps({"Replace":{k:v for k,v in o["Replace"].items() if "/vsync/" in k}}))
+PY
+  go build -modfile="$WORK/h.mod" -overlay "$WORK/ov/overlay-min.json" -tags verif -o "$WORK/c15" ./c15
+fi
 go build -modfile="$WORK/h.mod" -race -o "$WORK/c15race" ./c15
